@@ -333,13 +333,21 @@ func (fs LocalFileSystem) Copy(ctx context.Context, src, dst string, options *Co
 			return false, errFromOS(err)
 		}
 		created = true
-	} else {
-		if options.NoOverwrite {
-			return false, NewHTTPError(http.StatusPreconditionFailed, os.ErrExist)
-		}
-		if err := os.RemoveAll(dstPath); err != nil {
-			return false, errFromOS(err)
-		}
+	} else if options.NoOverwrite {
+		return false, NewHTTPError(http.StatusPreconditionFailed, os.ErrExist)
+	}
+
+	// Copy into a temporary name next to the destination and move the copy
+	// into place once it is complete, so that a copy that fails half-way
+	// leaves the destination, and a resource already there, as they were
+	wc, err := createTemp(filepath.Dir(dstPath))
+	if err != nil {
+		return false, errFromOS(err)
+	}
+	tmpPath := wc.Name()
+	wc.Close()
+	if err := os.Remove(tmpPath); err != nil {
+		return false, errFromOS(err)
 	}
 
 	err = filepath.Walk(srcPath, func(p string, fi os.FileInfo, err error) error {
@@ -351,7 +359,7 @@ func (fs LocalFileSystem) Copy(ctx context.Context, src, dst string, options *Co
 		if err != nil {
 			return err
 		}
-		target := filepath.Join(dstPath, rel)
+		target := filepath.Join(tmpPath, rel)
 		perm := fi.Mode() & os.ModePerm
 
 		if fi.IsDir() {
@@ -370,6 +378,18 @@ func (fs LocalFileSystem) Copy(ctx context.Context, src, dst string, options *Co
 		return nil
 	})
 	if err != nil {
+		os.RemoveAll(tmpPath)
+		return false, errFromOS(err)
+	}
+
+	if !created {
+		if err := os.RemoveAll(dstPath); err != nil {
+			os.RemoveAll(tmpPath)
+			return false, errFromOS(err)
+		}
+	}
+	if err := os.Rename(tmpPath, dstPath); err != nil {
+		os.RemoveAll(tmpPath)
 		return false, errFromOS(err)
 	}
 
